@@ -192,6 +192,7 @@ Cat == [idn |-> Rq("*IDN?", "", {}), describe |-> Rq("describe", "", {}),
         do_broken |-> Rq("do", "broken:cmd", {}),
         read_m |-> Rq("read", "m", {}), change_m |-> Rq("change", "m", {}),
         do_stop |-> Rq("do", "m:stop", {}), change_t |-> Rq("change", "m:t", {}), read_t |-> Rq("read", "m:t", {}),
+        ping_long |-> Rq("ping", "LONG", {}),           \* a reply longer than a small send buffer
         long_valid_3k |-> Rq("change", "m:s", {}),     \* a single line longer than two reads
         surrogate_t |-> Rq("change", "m:t", {})]      \* "\ud800": valid JSON, text that cannot be encoded as UTF-8
 
